@@ -303,6 +303,70 @@ theorem round_eq (dst frm : DurTy) (h : RoundTyOk dst frm) (c : Int) (hin : Roun
   split <;> [rfl; (split <;> [rfl; (split <;> rfl)])]
 
 
+/-! ## abs, unary minus, compound assignments -/
+
+/-- `abs(d)`: the absolute value, whenever `-c` is representable. -/
+theorem abs_eq (t : DurTy) (hr : RepOk t.rep) (hp : PerOk t.per) (hco : Coprime t.per) (hdiv : DivOk t.per t.per)
+    (c : Int) (hc : t.rep.inR c = true) (hn : t.rep.inR (-c) = true) :
+    absD t c = .ok (Spec.abs c) := by
+  have hl : ((Int.lcm t.per.den t.per.den : Nat) : Int) ≤ imax.max := by
+    rw [Int.lcm_self]; have := hp.2.1; have := hp.2.2.2; omega
+  have hcomm : CommonOk t.per t.per := by
+    unfold CommonOk; rw [cdPer_self _ hp hco]; exact ⟨hl, hdiv, hdiv⟩
+  have hctx : absCtx t = .ok ⟨t, pairK t t, castK t t⟩ := by
+    unfold absCtx
+    rw [pairCtx_eq t t hr hr hp hp hcomm]
+    simp only [bind, Except.bind]
+    have e : (pairK t t).cd = t := cdTy_self t hp hco
+    rw [e, castCtx_eq t t hr hr hp hp hdiv]
+    rfl
+  have h0 : t.rep.inR 0 = true := by
+    have := min_max_zero t.rep; rw [inR_iff]; exact this
+  have c0 : t.rep.conv 0 = 0 := conv_of_inR _ (repOk_w hr) _ h0
+  have cv : ∀ x : Int, t.rep.inR x = true → convertCore ⟨t.rep, imax, ⟨1, 1⟩⟩ x = .ok x := by
+    intro x hx
+    have := convertCore_eq t.rep hr 1 (by decide) (by decide) x (repOk_sub hr x hx) (by rwa [Int.mul_one])
+    rwa [Int.mul_one] at this
+  unfold absD
+  rw [hctx]
+  simp only [bind, Except.bind, absCore, c0, pairK_self t hp hco, castK_self t hp, ltCore, subCore, cv _ hc, cv _ h0]
+  unfold Spec.abs
+  by_cases hneg : c < 0
+  · simp only [hneg, decide_true, if_true]
+    have hn' : t.rep.inR (0 - c) = true := by rw [Int.zero_sub]; exact hn
+    rw [repOk_promote hr, arith_ok _ (repOk_w hr) _ hn']
+    simp only [mkCD_id _ hr _ hn', cv _ hn']
+    congr 1; omega
+  · simp only [hneg, decide_false, Bool.false_eq_true, if_false]
+    congr 1; omega
+
+/-- unary minus -/
+theorem neg_eq (t : DurTy) (hr : RepOk t.rep) (c : Int) (hn : t.rep.inR (-c) = true) : neg t c = .ok (-c) := by
+  unfold neg
+  rw [repOk_promote hr, arith_ok _ (repOk_w hr) _ hn]
+  simp only [bind, Except.bind, conv_of_inR _ (repOk_w hr) _ hn]
+
+/-- `+=`, `++` (duration and time_point): exact sum when representable -/
+theorem addAssign_eq (t : DurTy) (hr : RepOk t.rep) (c d : Int) (h : t.rep.inR (c + d) = true) :
+    addAssign t c d = .ok (c + d) := by
+  unfold addAssign
+  rw [repOk_promote hr, arith_ok _ (repOk_w hr) _ h]
+  simp only [bind, Except.bind, conv_of_inR _ (repOk_w hr) _ h]
+
+/-- `-=`, `--` -/
+theorem subAssign_eq (t : DurTy) (hr : RepOk t.rep) (c d : Int) (h : t.rep.inR (c - d) = true) :
+    subAssign t c d = .ok (c - d) := by
+  unfold subAssign
+  rw [repOk_promote hr, arith_ok _ (repOk_w hr) _ h]
+  simp only [bind, Except.bind, conv_of_inR _ (repOk_w hr) _ h]
+
+/-- `*=` by a tick count -/
+theorem mulAssign_eq (t : DurTy) (hr : RepOk t.rep) (c d : Int) (h : t.rep.inR (c * d) = true) :
+    mulAssign t c d = .ok (c * d) := by
+  unfold mulAssign
+  rw [repOk_promote hr, arith_ok _ (repOk_w hr) _ h]
+  simp only [bind, Except.bind, conv_of_inR _ (repOk_w hr) _ h]
+
 /-! ## non-vacuity of the hypotheses (kernel-evaluated on samples: tests, not proofs of anything general) -/
 
 /-- milliseconds (int32) and ticks of 1001/30000 s (int64): every static precondition used above holds -/
@@ -323,5 +387,18 @@ example : ceilTo ⟨i32, ⟨1, 1000⟩⟩ ⟨i64, ⟨1001, 30000⟩⟩ (-7) = .o
 example : lt ⟨i64, ⟨1001, 30000⟩⟩ ⟨i32, ⟨1, 1000⟩⟩ (-7) (-233) = .ok true := by
   rw [lt_eq _ _ (by decide +kernel) _ _ (by decide +kernel)]
   decide +kernel
+
+/-- non-vacuity of `round_eq` on an exact tie with a negative count (a kernel-evaluated sample, i.e. a test):
+    -90 s to minutes is -1.5, which rounds to the even neighbour -2 -/
+example : RoundTyOk ⟨i32, ⟨60, 1⟩⟩ ⟨i64, ⟨1, 1⟩⟩ ∧ RoundIn ⟨i32, ⟨60, 1⟩⟩ ⟨i64, ⟨1, 1⟩⟩ (-90) := by decide +kernel
+example : roundTo ⟨i32, ⟨60, 1⟩⟩ ⟨i64, ⟨1, 1⟩⟩ (-90) = .ok (-2) := by
+  rw [round_eq _ _ (by decide +kernel) _ (by decide +kernel)]
+  decide +kernel
+
+
+example : absD ⟨i32, ⟨1001, 30000⟩⟩ (-2147483647) = .ok 2147483647 := by
+  rw [abs_eq _ (by decide) (by decide) (by decide +kernel) (by decide) _ (by decide) (by decide)]
+  rfl
+
 
 end Tetl.C12.Props
